@@ -102,7 +102,14 @@ def build(item):
             return 'C05 unexpected diagnostic %r' % (diags,)
         return None
     # the scanner looks ahead after a comment (into h2) and after a control word (into h2/B)
-    w2 = (len(V), 1) if kind in ('comment', 'word') else (0, 0)
+    if kind == 'word':
+        tail = len(V) - V.rfind('\\')
+    elif kind == 'comment':
+        ls = V.rfind('\n', 0, len(V) - 1) + 1
+        tail = len(V) - V.index('%', ls)
+    else:
+        tail = 0
+    w2 = (tail, 1) if tail else (0, 0)
     lmins = (0, 1 if kind in ('word', 'par') else 0)
     return sketch.make2('Alpha', V, 'Beta', 'SPACE', L, {'pack': '*'}, orc, lmins=lmins,
                         wins=((0, 0), w2), twin=bool(item.get('twin')))
